@@ -81,13 +81,13 @@ class Ctx:
             pass
         return r
 
-    def validate_trace(self, module, events, what="", consts="", timeout=3600, count=True):
+    def validate_trace(self, module, events, what="", consts="", timeout=3600, count=True, init="Init", nxt="Next"):
         """Trace validation (code -> spec): events are dicts with a kind `k`; ids are assigned here.
         Returns {id: [failing clause names]} (without DRIFT) and the list of drifting ids."""
         for i, e in enumerate(events):
             e["id"] = i + 1
         text = "".join(json.dumps(e, separators=(",", ":")) + "\n" for e in events)
-        cfg = "INIT Init\nNEXT Next\nPOSTCONDITION Accepted\nCHECK_DEADLOCK FALSE\n" + consts
+        cfg = "INIT %s\nNEXT %s\nPOSTCONDITION Accepted\nCHECK_DEADLOCK FALSE\n" % (init, nxt) + consts
         r = self.tlc(module, cfg, what=what, workers=1, files={"trace.ndjson": text},
                      env={"TRACE_FILE": "trace.ndjson"}, timeout=timeout)
         if r.violated is not None:
